@@ -1074,3 +1074,63 @@ Ltac fstep :=
   | |- ffat _ (emit _) _ _ => apply ffat_emit
   end.
 Ltac fsteps := repeat fstep.
+
+(* ------------------------------------------------------------------ *)
+(** ** [Inv2] is kept by [commit], [branch] and [switch] *)
+Definition keeps {A} (w : world) (m : M A) : Prop := ffat w m (fun _ => Inv2) Inv2.
+
+(* the final world of a "write the branch, then its log" sequence *)
+Lemma cover_set_set : forall (refs blogs : amap bytes) n id l,
+  (forall k, am_mem refs k = true -> am_mem blogs k = true) ->
+  forall k, am_mem (am_set refs n id) k = true -> am_mem (am_set blogs n l) k = true.
+Proof.
+  intros refs blogs n id l Hc k Hk. rewrite am_mem_set in Hk |- *.
+  destruct (bytes_eqb n k); [reflexivity|]. cbn [orb] in Hk |- *. apply Hc. exact Hk.
+Qed.
+
+Lemma keeps_safe : forall A (m : M A) w, safe m -> traced m -> Inv2 w -> keeps w m.
+Proof. intros A m w Hm Ht Hi. exact (ffat_emits A Inv2 ref_safe m w Hm Ht Hi). Qed.
+
+Lemma do_commit_keeps : forall e c msg w, Inv2 w -> keeps w (do_commit e c msg).
+Proof.
+  intros e c msg w Hi. unfold keeps, do_commit, put_obj. fsteps; try assumption.
+  apply ffat_bind with
+    (R := fun _ w' => Inv2 w' /\ w_refs w' = w_refs w /\ w_blogs w' = w_blogs w).
+  - apply ffat_conseq with (Q := fun _ w' => Inv2 w' /\ w_refs w' = w_refs w /\ w_blogs w' = w_blogs w)
+                           (E := Inv2); [|auto|auto].
+    apply ffat_iterM; [auto|].
+    intros d w' _ (Hi' & Hr & Hb). fsteps. split; [apply Inv2_safe; [exact Hi' | exact Logic.I]|].
+    wsimpl. auto.
+  - intros _ w' (Hi' & Hr & Hb). fsteps; try assumption.
+    all: destruct Hi as [Hs Hc]; split; unfold refs_sorted, blogs_cover_refs; wsimpl; rewrite Hr, ?Hb;
+      [apply am_set_sorted; exact Hs | apply cover_set_set; exact Hc].
+Qed.
+
+Lemma cmd_commit_keeps : forall e c msg w, Inv2 w -> keeps w (cmd_commit e c msg).
+Proof.
+  intros e c msg w Hi. unfold keeps, cmd_commit. fsteps; try assumption.
+  - apply ffat_bind with (R := fun _ => Inv2); [apply do_commit_keeps; exact Hi|].
+    intros _ w' Hi'. fsteps. exact Hi'.
+  - apply ffat_bind with (R := fun _ => Inv2).
+    + apply keeps_safe; [apply head_tree_nodes_safe | apply head_tree_nodes_traced | exact Hi].
+    + intros ns w' Hi'. fsteps; try assumption.
+      apply ffat_bind with (R := fun _ => Inv2); [apply do_commit_keeps; exact Hi'|].
+      intros _ w'' Hi''. fsteps. exact Hi''.
+Qed.
+
+Lemma cmd_branch_keeps : forall e c args lst rn dl w, Inv2 w -> keeps w (cmd_branch e c args lst rn dl).
+Proof.
+  intros e c args lst rn dl w Hi. unfold keeps, cmd_branch. cbv zeta.
+  apply ffat_bind_guard; [intros _ | intros _; exact Hi].
+  apply ffat_bind with (R := fun _ => Inv2).
+  { (* create *)
+    fsteps; try assumption.
+    destruct Hi as [Hs Hc]; split; unfold refs_sorted, blogs_cover_refs; wsimpl;
+      [apply am_set_sorted; exact Hs | apply cover_set_set; exact Hc]. }
+  intros _ w1 Hi1. apply ffat_bind with (R := fun _ => Inv2).
+  { fsteps; exact Hi1. }
+  intros out w2 Hi2. apply ffat_bind with (R := fun _ => Inv2).
+  { (* rename *)
+    fsteps; try assumption.
+    Show. all: admit. }
+Abort.
